@@ -19,11 +19,16 @@ TRANSLATE = True
 # (Gen/AlgoNode), get_furcations / get_branches (Gen/AlgoBranches) and get_subtree_impl (Gen/AlgoSubtree), all over the generated traversal
 TRANSLATE_ALGO = ["AlgoTraverse", "AlgoNode", "AlgoBranches", "AlgoSubtree", "AlgoLMeasure"]
 DRIVER_FILES = ["SwcVerif/Model/AlgoRunLMeasure.lean", "SwcVerif/Model/PyMore.lean"]
-LEAN_MODS = ["SwcVerif.Props.C10", "SwcVerif.Proofs.Represent"]
+LEAN_MODS = ["SwcVerif.Props.C10", "SwcVerif.Proofs.Represent", "SwcVerif.Props.C10Gen"]
 THEOREMS = [
     "C10.length_eq_sum_edges", "C10.chainLength_eq", "C10.length_eq_sum_branches", "C10.branches_eq", "C10.counts", "C10.path_distance_eq_sum",
     "C10.branch_order_eq_furcations_on_path", "C10.terminal_degree_eq_tips_below", "C10.sholl_eq_straddle_count", "C10.partition_asymmetry_def",
     "C10.fragmentation_eq", "C10.population_rows", "Represent.wf_represented",
+    # refinement: the definitions generated from lmeasure.py / tree.py / node.py on this run compute the quantities of their definitions
+    "RefineLm.branchOrder_refines", "RefineLm.nStems_refines", "RefineLm.getTips_refines", "RefineLm.nTips_refines", "RefineLm.nBifs_refines",
+    "RefineLm.nBranch_refines", "RefineLm.fragmentation_refines", "RefineLm.node_subtree_eq", "RefineLm.terminalDegree_reduces",
+    "C10.generated_branch_order", "C10.generated_branch_order_eq_model", "C10.generated_n_stems", "C10.generated_n_tips", "C10.generated_n_tips_tree",
+    "C10.generated_n_bifs", "C10.generated_n_branch", "C10.generated_fragmentation",
 ]
 TRUSTED = ["hand-written models Model/Features.lean (lengths as sums of edge lengths, counts, orders, Sholl straddle rule), tied by the c10.features correspondence "
            "(exact on lattice trees whose edges are axis-aligned with integer length); partition_asymmetry is regenerated from lmeasure.py (Gen/LMeasureArith.lean)"]
